@@ -963,6 +963,163 @@ pub fn run_lin_history(dir: &Path, p: &LinParams) -> Result<LinHistory, String> 
     Ok(LinHistory { keys: p.hot_keys, events: events.into_inner().unwrap(), fin, flushes })
 }
 
+// ------------------------------------------------------------------ C14: write-stall freedom, stepped
+
+/// Parameters of one stepped stall-freedom program (the replay file holds exactly these)
+#[derive(Clone, Debug, Serialize, Deserialize)]
+pub struct StallParams {
+    pub writes: usize,
+    pub keyspaces: usize,
+    pub memtable: u64,
+    pub l0_threshold: u8,
+    pub blob: bool,
+    pub pos_scale: u64,
+    /// per mille chance that worker steps run after a write
+    pub step_pm: u32,
+    pub seed: u64,
+}
+
+#[derive(Default, Debug)]
+pub struct StallOut {
+    pub flushes: u64,
+    pub drains: u64,
+    pub max_l0: usize,
+    pub steps: u64,
+}
+
+/// "The write stall mechanisms always let writers proceed eventually", made decidable without a
+/// clock: the worker pool is the unmodified `worker_tick` of a pool of ONE worker, stepped by the
+/// harness (0 threads). A writer is blocked while a keyspace has >= 4 sealed memtables or >= 30 L0
+/// runs (throttled from 20). Oracle, checked at every point where the harness lets the pool run dry:
+/// the queue does run dry within a bound proportional to the work queued (no task is re-queued
+/// forever), and once it is dry no keyspace is in a stall condition (sealed memtables == 0, L0
+/// runs < 20) — otherwise a writer arriving now would wait for ever. Before every write the harness
+/// (like the interpreter) steps the pool while the keyspace is at the sealed-memtable limit; if the
+/// pool has nothing queued at that moment the writer could never continue.
+pub fn run_stall_case(dir: &Path, p: &StallParams) -> Result<StallOut, String> {
+    use crate::real::{open_db, open_ks, OpenOpts};
+    use fjall::AbstractTree;
+    let _ = std::fs::remove_dir_all(dir);
+    let cfg = Cfg {
+        flavor: Flavor::Plain,
+        journal_lz4: false,
+        db_manual_persist: false,
+        pos_scale: p.pos_scale,
+        ks: vec![],
+        filter_mask: 0,
+    };
+    let kc = KsCfg {
+        blob: if p.blob { Some(48) } else { None },
+        memtable: p.memtable,
+        strategy: Strat::LeveledSmall { l0: p.l0_threshold, target: 4096 },
+        manual_persist: false,
+    };
+    let db = open_db(dir, &cfg, &OpenOpts { workers: 0, lz4: false }).map_err(|e| format!("open: {e:?}"))?;
+    let dbi = db.inner().clone();
+    let kss: Vec<_> = (0..p.keyspaces.clamp(1, 4)).map(|i| open_ks(&db, NAMES[i], &kc).map_err(|e| format!("{e:?}"))).collect::<Result<_, _>>()?;
+    let mut model: Vec<BTreeMap<Vec<u8>, Vec<u8>>> = vec![BTreeMap::new(); kss.len()];
+    let mut x = p.seed | 1;
+    let mut rnd = move || {
+        x ^= x << 13;
+        x ^= x >> 7;
+        x ^= x << 17;
+        x >> 9
+    };
+    let mut out = StallOut::default();
+    let step = |out: &mut StallOut| -> Result<bool, String> {
+        let r = dbi.verif_worker_step().map_err(|e| format!("worker step: {e:?}"))?;
+        if r {
+            out.steps += 1;
+        }
+        Ok(r)
+    };
+    let tables = |kss: &Vec<crate::real::KsH>| -> u64 { kss.iter().map(|h| h.ks.tree.table_count() as u64).sum() };
+    let mut last_tables = tables(&kss);
+    let drain_and_check = |out: &mut StallOut, kss: &Vec<crate::real::KsH>, at: usize| -> Result<(), String> {
+        let pending = dbi.verif_pending();
+        let bound = 2_000 + 200 * pending as u64;
+        let mut n = 0u64;
+        while step(out)? {
+            n += 1;
+            if n > bound {
+                return Err(format!(
+                    "after write {at}: the worker queue held {pending} tasks and is still not empty after {n} ticks of the single worker ({} queued): a task is re-queued forever, so the work it stands for (compaction) never runs and writers end in the write halt",
+                    dbi.verif_pending()
+                ));
+            }
+        }
+        out.drains += 1;
+        for h in kss {
+            let (sealed, l0) = (h.ks.tree.sealed_memtable_count(), h.ks.tree.l0_run_count());
+            out.max_l0 = out.max_l0.max(l0);
+            if sealed > 0 {
+                return Err(format!("after write {at}: the worker pool is idle but keyspace {:?} still has {sealed} sealed memtables (at 4 writers halt for ever)", h.ks.name()));
+            }
+            if l0 >= 20 {
+                return Err(format!("after write {at}: the worker pool is idle but keyspace {:?} has {l0} L0 runs (writers are throttled from 20 and halted at 30, nothing is queued that would reduce them)", h.ks.name()));
+            }
+        }
+        Ok(())
+    };
+    for i in 0..p.writes {
+        let ki = (rnd() % kss.len() as u64) as usize;
+        let h = &kss[ki];
+        // a writer at the sealed-memtable limit waits for the pool
+        let mut guard = 0;
+        while h.ks.tree.sealed_memtable_count() >= 3 || h.ks.tree.l0_run_count() >= 19 {
+            if !step(&mut out)? {
+                return Err(format!(
+                    "before write {i}: keyspace {:?} has {} sealed memtables and {} L0 runs but no task is queued: a writer stalls for ever",
+                    h.ks.name(),
+                    h.ks.tree.sealed_memtable_count(),
+                    h.ks.tree.l0_run_count()
+                ));
+            }
+            guard += 1;
+            if guard > 5_000 {
+                return Err(format!("before write {i}: 5000 worker ticks did not bring keyspace {:?} below the stall limits ({} sealed, {} L0 runs)", h.ks.name(), h.ks.tree.sealed_memtable_count(), h.ks.tree.l0_run_count()));
+            }
+        }
+        let key = format!("k{:03}", rnd() % 60).into_bytes();
+        if rnd() % 8 == 0 {
+            h.ks.remove(key.clone()).map_err(|e| format!("remove: {e:?}"))?;
+            model[ki].remove(&key);
+        } else {
+            let len = 20 + (rnd() % 500) as usize;
+            let v = vec![b'a' + (i % 26) as u8; len];
+            h.ks.insert(key.clone(), v.clone()).map_err(|e| format!("insert: {e:?}"))?;
+            model[ki].insert(key, v);
+        }
+        if (rnd() % 1000) < u64::from(p.step_pm) {
+            for _ in 0..1 + rnd() % 4 {
+                step(&mut out)?;
+            }
+        }
+        if i % 40 == 39 {
+            drain_and_check(&mut out, &kss, i)?;
+            let t = tables(&kss);
+            out.flushes += t.saturating_sub(last_tables);
+            last_tables = t;
+        }
+    }
+    drain_and_check(&mut out, &kss, p.writes)?;
+    for (ki, h) in kss.iter().enumerate() {
+        let got: BTreeMap<Vec<u8>, Vec<u8>> = h
+            .ks
+            .iter()
+            .map(|g| g.into_inner().map(|(k, v)| (k.to_vec(), v.to_vec())))
+            .collect::<Result<_, _>>()
+            .map_err(|e| format!("scan: {e:?}"))?;
+        if got != model[ki] {
+            return Err(format!("final content of keyspace {:?} differs from the acknowledged writes ({} vs {} keys)", h.ks.name(), got.len(), model[ki].len()));
+        }
+    }
+    drop(kss);
+    drop(db);
+    let _ = std::fs::remove_dir_all(dir);
+    Ok(out)
+}
+
 pub fn shard_c14(tier: &str, seed: u64, shard: u32, cases: u32) -> ShardOut {
     silence_panics();
     let mut o = ShardOut::default();
@@ -976,7 +1133,42 @@ pub fn shard_c14(tier: &str, seed: u64, shard: u32, cases: u32) -> ShardOut {
         rng
     };
     let _ = tier;
-    for _ in 0..cases {
+    for ci in 0..cases {
+        if ci % 25 == 24 {
+            // stepped stall-freedom program (deterministic; see run_stall_case)
+            let sp = StallParams {
+                writes: 200 + (next() % 500) as usize,
+                keyspaces: 1 + (next() % 3) as usize,
+                memtable: [256u64, 600, 1500][(next() % 3) as usize],
+                l0_threshold: 2 + (next() % 3) as u8,
+                blob: next() % 4 == 0,
+                pos_scale: if next() % 2 == 0 { 64_000 } else { 1 },
+                step_pm: [0u32, 100, 400, 900][(next() % 4) as usize],
+                seed: next(),
+            };
+            o.evaluations += 1;
+            phase(&format!("C14 stall {}", serde_json::to_string(&sp).unwrap_or_default()));
+            match run_stall_case(&base.join("stall"), &sp) {
+                Ok(so) => {
+                    *o.stats.entry("stall_programs".into()).or_insert(0) += 1;
+                    *o.stats.entry("stall_worker_ticks".into()).or_insert(0) += so.steps;
+                    *o.stats.entry("stall_idle_points_checked".into()).or_insert(0) += so.drains;
+                    *o.stats.entry("stall_tables_written".into()).or_insert(0) += so.flushes;
+                    let e = o.stats.entry("stall_max_l0_runs_seen".into()).or_insert(0);
+                    *e = (*e).max(so.max_l0 as u64);
+                    // non-trivial: more flushes than the halt limit would allow without compaction
+                    if so.steps >= 40 {
+                        o.nt_hashes.push(case_hash(&serde_json::to_string(&sp).unwrap_or_default()));
+                        *o.stats.entry("stall_programs_beyond_halt_limit".into()).or_insert(0) += 1;
+                    }
+                }
+                Err(e) => {
+                    o.failure = Some(FailureOut { case: json!({"property": "C14", "kind": "stall", "params": sp, "failure": {"msg": e}}), msg: e, step: 0, original_msg: String::new() });
+                    break;
+                }
+            }
+            continue;
+        }
         let threads = 2 + (next() % 7) as usize;
         let hot = 2 + (next() % 4) as usize;
         // keep <= ~24 operations per hot key
@@ -1038,6 +1230,10 @@ pub fn shard_c14(tier: &str, seed: u64, shard: u32, cases: u32) -> ShardOut {
 pub fn replay_c14(v: &serde_json::Value, _e: &BTreeSet<String>) -> Option<String> {
     match v.get("kind").and_then(|k| k.as_str()) {
         Some("history") => check_lin_history(v.get("history")?).err().filter(|e| !e.starts_with("INCONCLUSIVE")),
+        Some("stall") => {
+            let sp: StallParams = serde_json::from_value(v.get("params")?.clone()).ok()?;
+            run_stall_case(&scratch_root().join(format!("c14-replay-{}", std::process::id())), &sp).err()
+        }
         _ => None,
     }
 }
